@@ -12,7 +12,7 @@ func verifHarnessC05() {
 	verifAssert(err == nil, "C05.open-err")
 	m := newVModel(len(kp.keys))
 	for i := 0; i < pre; i++ {
-		ki := verifChoice("pki", len(kp.keys))
+		ki := verifChoice("pki", kp.hot())
 		v := verifValue("pv")
 		verifAssert(db.Put(kp.keys[ki], v) == nil, "C05.pre-put-err")
 		m.put(ki, v)
@@ -24,7 +24,7 @@ func verifHarnessC05() {
 	st := m.clone()
 	nfiles := len(db.olderFiles)
 	for i := 0; i < K; i++ {
-		ki := verifChoice("bki", len(kp.keys))
+		ki := verifChoice("bki", kp.hot())
 		switch verifChoice("bop", 3) {
 		case 0:
 			v := verifValue("bv")
